@@ -265,8 +265,12 @@ func c10GenOp(h *c08hist) (ref.Instr, bool) {
 	switch r.Intn(15) {
 	case 12: // MatMul / Dot: the receiver is used again afterwards by later steps
 		if rank >= 2 && len(v.Data) <= 36 {
-			if y, ok := compat(func(s []int) bool {
-				return len(s) == rank && s[rank-2] == v.Shape[rank-1] && ref.SameShape(s[:rank-2], v.Shape[:rank-2])
+			if y, ok := compat(func(s []int) bool { // any partner the product is defined for: equal rank, or a lower / higher rank with broadcastable batch dimensions
+				if len(s) < 2 || ref.Prod(s) > 36 {
+					return false
+				}
+				_, _, _, _, err := ref.MatMulShapes(v.Shape, s)
+				return err == nil
 			}); ok && maxAbs(v) < 10 && maxAbs(h.nodes[y].val) < 10 {
 				return ref.Instr{Op: "matmul", In: []int{x, y}}, true
 			}
